@@ -322,24 +322,50 @@ theorem wpLoop_encode (parseKV : Bytes → Option Bytes) : ∀ (evs : List WEven
         (by simp at hf; omega) (fun x hx => hwf x (by simp [hx]))]
       simp [storedModel, wpNext]
 
+/-- the validation pass of the repaired `init` accepts a complete packet whose field texts all parse -/
+theorem strictLoop_encode_some (parseKV : Bytes → Option Bytes) (wf : Bytes) : ∀ (evs : List WEvent),
+    (∀ e ∈ evs, e.WF) → (∀ e ∈ evs, (parseKV e.fields).isSome) →
+    ∃ es, strictLoop parseKV wf evs.length (encodeEvents evs) = some es := by
+  intro evs
+  induction evs with
+  | nil => intro _ _; exact ⟨[], rfl⟩
+  | cons e es ih =>
+    intro hwf hok
+    have hd := decodeEvent_encode e (encodeEvents es) (hwf e (by simp))
+    have hp := hok e (by simp)
+    obtain ⟨r, hr⟩ := ih (fun x hx => hwf x (by simp [hx])) (fun x hx => hok x (by simp [hx]))
+    cases hpe : parseKV e.fields with
+    | none => simp [hpe] at hp
+    | some ef =>
+      refine ⟨⟨e.ts, e.msg, wf ++ ef⟩ :: r, ?_⟩
+      simp only [List.length_cons, strictLoop, encodeEvents, hd, hpe, drop_encodeEvent, hr, Option.map_some]
+
 theorem wpInit_encode (parseKV : Bytes → Option Bytes) (tags flds wf : Bytes) (evs : List WEvent)
-    (ht : Small tags) (hf : Small flds) (hp : parseKV flds = some wf) :
+    (ht : Small tags) (hf : Small flds) (hp : parseKV flds = some wf) (hn : evs.length < two32)
+    (hwf : ∀ e ∈ evs, e.WF)
+    (hval : Generated.C01.wpInitValidatesEvents = true → ∀ e ∈ evs, (parseKV e.fields).isSome) :
     ∃ it, wpInit parseKV (wpEncode tags flds evs) = .ok it ∧ it.tags = tags ∧ it.flds = wf ∧
-      it.rest = encodeEvents evs ∧ it.recs = evs.length % two32 ∧ it.cur = 0 ∧ it.read = false := by
+      it.rest = encodeEvents evs ∧ it.recs = evs.length ∧ it.cur = 0 ∧ it.read = false := by
   unfold wpInit wpEncode
   rw [rpcString_marshal _ _ ht]
   simp only [drop_marshalBytes]
   rw [rpcString_marshal _ _ hf]
   simp only [drop_add, drop_marshalBytes]
   rw [u32_be _ _ (Nat.mod_lt _ (by decide))]
-  simp only [hp, drop_be]
-  exact ⟨_, rfl, rfl, rfl, rfl, rfl, rfl, rfl⟩
+  simp only [hp, drop_be, Nat.mod_eq_of_lt hn]
+  by_cases hfact : Generated.C01.wpInitValidatesEvents = true
+  · obtain ⟨es, he⟩ := strictLoop_encode_some parseKV wf evs hwf (hval hfact)
+    simp only [hfact, ↓reduceIte, he]
+    exact ⟨_, rfl, rfl, rfl, rfl, rfl, rfl, rfl⟩
+  · simp only [hfact, Bool.false_eq_true, ↓reduceIte]
+    exact ⟨_, rfl, rfl, rfl, rfl, rfl, rfl, rfl⟩
 
 theorem wpDrain_encode (parseKV : Bytes → Option Bytes) (tags flds wf : Bytes) (evs : List WEvent)
     (ht : Small tags) (hf : Small flds) (hp : parseKV flds = some wf) (hn : evs.length < two32)
-    (hwf : ∀ e ∈ evs, e.WF) :
+    (hwf : ∀ e ∈ evs, e.WF)
+    (hval : Generated.C01.wpInitValidatesEvents = true → ∀ e ∈ evs, (parseKV e.fields).isSome) :
     wpDrain parseKV (wpEncode tags flds evs) = .ok (tags, evs.map (storedModel parseKV wf)) := by
-  obtain ⟨it, hi, h1, h2, h3, h4, h5, h6⟩ := wpInit_encode parseKV tags flds wf evs ht hf hp
+  obtain ⟨it, hi, h1, h2, h3, h4, h5, h6⟩ := wpInit_encode parseKV tags flds wf evs ht hf hp hn hwf hval
   unfold wpDrain
   rw [hi]
   simp only []
@@ -347,7 +373,7 @@ theorem wpDrain_encode (parseKV : Bytes → Option Bytes) (tags flds wf : Bytes)
     have := encodeEvents_length_ge evs
     simp only [wpEncode, List.length_append]
     omega
-  rw [wpLoop_encode parseKV evs it _ h6 h3 (by rw [h5, h4, Nat.mod_eq_of_lt hn]; simp) hlen hwf]
+  rw [wpLoop_encode parseKV evs it _ h6 h3 (by rw [h5, h4]; simp) hlen hwf]
   simp [h1, h2]
 
 end Logrange.WireRT
